@@ -386,6 +386,22 @@ def get_key_function(collation: Optional[str] = None,
     return cmp_to_key(compare_func)
 
 
+def is_comparable(v1: Any, v2: Any) -> bool:
+    """
+    Returns `False` for the couples of atomic values that cannot be compared with the
+    operator `eq` but that Python compares as equal: a boolean and a number, a QName
+    and a string, an xs:hexBinary and an xs:base64Binary value.
+    """
+    if isinstance(v1, bool) ^ isinstance(v2, bool):
+        return False
+    elif isinstance(v1, AbstractQName) ^ isinstance(v2, AbstractQName):
+        return False
+    elif isinstance(v1, AbstractBinary) and isinstance(v2, AbstractBinary) \
+            and type(v1) is not type(v2):
+        return False
+    return True
+
+
 def same_key(k1: Any, k2: Any) -> bool:
     if isinstance(k1, (str, AnyURI, UntypedAtomic)):
         if not isinstance(k2, (str, AnyURI, UntypedAtomic)):
